@@ -11,7 +11,7 @@ def check(ctx):
         "commits; R4 one Reporter::report call per cycle, outside loops, fed by the single records vector; R5 the "
         "future/stream/sink adapters release the local-parent guard before finishing their span (C13-R3/C14-R3); R6 the "
         "receiver drain loops until try_recv reports an empty (or closed) channel, forwarding every command; R7 the "
-        "per-item fan-out of a shared span set leaves only by exhaustion; R8 Config::cancelable(x) sets cancelable to x.")
+        "per-item fan-out of a shared span set leaves only by exhaustion; R8 Config::cancelable(x) sets cancelable to x. R6 also: the receiver registry is filtered in place under its lock; R11 a scope records iff any item of its token is sampled.")
     ctx.explanation += (" R12 the delivery bundle: queues drained to their end with the registry filtered in place, closed = closed and empty, "
                         "stale sets kept unless cancelable, shared sets fanned out to every parent, one sampling filter at the choke point, a scope "
                         "records iff any parent is sampled, setting a local parent opens a scope, no-op only without a recording parent.")
